@@ -37,7 +37,7 @@ def shards(tier):
 
 
 def required_classes(tier):
-    return ["op:persist", "op:field", "op:field-adhoc", "op:curve", "op:pairing", "op:hash", "op:zcash", "op:bls", "op:secp", "history", "repeat-in-history", "adhoc-class-created-mid-history"]
+    return ["op:raising", "op:persist", "op:field", "op:field-adhoc", "op:curve", "op:pairing", "op:hash", "op:zcash", "op:bls", "op:secp", "history", "repeat-in-history", "adhoc-class-created-mid-history"]
 
 
 # ------------------------------------------------------------------------------------------------ the pool
@@ -229,6 +229,17 @@ def build_pool(seed, quick):
     add("bls", "pop.PopVerify", 1, lambda: (Pp.PopVerify, [MB.sk_to_pk(sks[0]), MB.pop_prove(sks[0])]))
     fm = b"fast"
     add("bls", "pop.FastAggregateVerify", 1, lambda: (Pp.FastAggregateVerify, [[MB.sk_to_pk(s) for s in sks], fm, MB.aggregate([MB.sign("pop", s, fm) for s in sks])]))
+    # ---- operations that are refused half-way (an exception must not leave anything behind)
+    add("raising", "xmd(ell>255)", 1, lambda: (hm.expand_message_xmd, [b"m", b"dst", 255 * 32 + 1, HASHES["sha256"]]))
+    add("raising", "hash_to_G2(dst=256 bytes)", 1, lambda: (h2c.hash_to_G2, [b"m", b"d" * 256, HASHES["sha256"]]))
+    add("raising", "FQ2(three coefficients)", 1, lambda: ((lambda lst: ob.FQ2(lst)), [[1, 2, 3]]))
+    add("raising", "FQ2 + FQ12", 1, lambda: ((lambda a, b: a + b), [ob.FQ2([1, 2]), ob.FQ12([1] * 12)]))
+    add("raising", "FQ * str", 1, lambda: ((lambda a, b: a * b), [ob.FQ(5), "x"]))
+    add("raising", "pairing(off-curve)", 1, lambda: (importlib.import_module("py_ecc.optimized_bls12_381").pairing, [ob.G2, (ob.FQ(1), ob.FQ(1), ob.FQ(1))]))
+    add("raising", "decompress_G2(bad second word)", 1, lambda: (pc.decompress_G2, [((1 << 383) | 5, 1 << 383)]))
+    add("raising", "Aggregate(second entry undecodable)", 1, lambda: (cs.G2Basic.Aggregate, [[MB.sign("basic", 3, b"message"), b"\xff" * 96]]))
+    add("raising", "Aggregate(third entry short)", 1, lambda: (cs.G2ProofOfPossession.Aggregate, [[MB.sign("pop", 3, b"message"), MB.sign("pop", 3, b""), b"\x00" * 95]]))
+    add("raising", "SkToPk(r)", 1, lambda: (cs.G2Basic.SkToPk, [Sb.r]))
     # ---- secp256k1
     sp = importlib.import_module("py_ecc.secp256k1.secp256k1")
     privs = [rng.randrange(1, sp.N).to_bytes(32, "big"), (1).to_bytes(32, "big")]
